@@ -146,6 +146,25 @@ def F7e():
     h, r, exc = run_h1(app, sc)
     return (exc is None and r is False), f"last idle report after the switch with no stream open: idle={r} (the server stops its keep-alive timer on idle=False)"
 
+def F6b():
+    """two pipelined requests; the write of the first response fails (peer gone), the server tells
+    the protocol Closed; when the first application finishes the connection is recycled all the
+    same and the second request's application is started on the dead connection"""
+    started = []
+
+    async def app(scope, receive, send):
+        started.append(scope["path"])
+        await send({"type": "http.response.start", "status": 200, "headers": [(b"content-length", b"2")]})
+        await send({"type": "http.response.body", "body": b"ok"})
+
+    async def sc(h):
+        await h.feed(b"GET /a HTTP/1.1\r\nHost: x\r\n\r\nGET /b HTTP/1.1\r\nHost: x\r\n\r\n")
+        await h.settle()
+        return list(started)
+    h, r, exc = run_h1(app, sc, fail_write_at=1)
+    r = r or []
+    return ("/b" in r), f"applications started: {r} (every write failed from the first one on)"
+
 
 SCENARIOS = {k: v for k, v in globals().items() if k.startswith("F") and callable(v)}
 
